@@ -127,6 +127,10 @@ FIXED = [
     ("C13", "C13/gopher-menu-line-broken-by-content", "c0c5532",
      "a file whose name holds CR LF followed by block-header text ('n\r\n+ADMIN:\r\n Admin: Mallory'): the name went into the "
      "menu line and the +INFO line as it was, so the Gopher+ listing of its directory showed a block (or an item) of the name's making"),
+    ("C16", "C16/differs:dir:menu-vs-any:gopher", "5bd700e",
+     "a gophermap inside an archive with an absolute link to an object of the site ('0Site file<TAB>/ZQXSITE-file.txt'): looked up "
+     "among the members under the selector minus len(zipfilename) characters -- not found (the line loses its Gopher+ flag and "
+     "abstract, unlike on disk) or found by accident (described as that member)"),
     ("C16", "C16/differs:dir:menu-vs-any:gopher", "80ca1cd",
      "a gophermap inside an archive linking a member directory with a trailing slash ('1Docs<TAB>docs/'): the sidecar look-up "
      "'docs//.abstract' succeeds on disk and fails in the archive, so the directory's abstract/keywords blocks are lost there"),
